@@ -30,6 +30,9 @@ Definition add_text (st : pst) (t : list str) : pst :=
   mkPst (cur st) (up st) (text st ++ t) (unk st) (store st) (ph st).
 Definition add_unk (st : pst) (u : list str) : pst :=
   mkPst (cur st) (up st) (text st) (unk st ++ u) (store st) (ph st).
+(* the text of the token is only needed while later pairs of it are pending *)
+Definition mk_pend (oid : nat) (key : str) (i : nat) (pend : list pair) (tok : str) : phase :=
+  PPend oid key i pend (match pend with [] => [] | _ => tok end).
 Definition descend (st : pst) (child : node) : pst :=
   mkPst child (mkLevel (cur st) (text st) (unk st) :: up st) [] [] (store st) PHead.
 
@@ -62,6 +65,9 @@ Section WithEnv.
   Variable pf : str -> option N.          (* strconv.ParseFloat oracle *)
   Variable md : mode.                     (* the program's single-dash mode *)
   Variable lower : bool.                  (* root's mapKeysToLower *)
+  Variable ro_on : bool.                  (* true: honour SetRequireOrder (the real parser);
+                                             false: the same parser with require-order ignored,
+                                             used to state C09 *)
   Variable specs : list ospec.            (* static option data by id *)
 
   Definition is_unknown (tbl : list (str * nat)) (p : pair) : bool :=
@@ -126,13 +132,13 @@ Section WithEnv.
         | Err e => Err e
         | Ok None => advance st tok pend'
         | Ok (Some (st', c)) =>
-            if wants c then let '(oid, key, i, _, _) := c in Ok (set_ph st' (PPend oid key i pend' tok))
+            if wants c then let '(oid, key, i, _, _) := c in Ok (set_ph st' (mk_pend oid key i pend' tok))
             else advance st' tok pend'
         end
     end.
 
   Definition settle (st : pst) (c : cursor) (pend : list pair) (tok : str) : result pst :=
-    if wants c then let '(oid, key, i, _, _) := c in Ok (set_ph st (PPend oid key i pend tok))
+    if wants c then let '(oid, key, i, _, _) := c in Ok (set_ph st (mk_pend oid key i pend tok))
     else advance st tok pend.
 
   (* token [t] was not taken by the option under the cursor: go on with the later pairs of the same
@@ -173,12 +179,13 @@ Section WithEnv.
     else
       let '(pairs, is) := is_option md t in
       let ni := n_info (cur st) in
+      let reqorder := ro_on && ni_reqorder ni in
       if is then
         let unknown := List.filter (is_unknown (n_opts (cur st))) pairs in
         match unknown with
         | [] => advance st t pairs
         | _ :: _ =>
-            if ni_reqorder ni then Ok (set_ph (add_text st [t]) PTail)
+            if reqorder then Ok (set_ph (add_text st [t]) PTail)
             else
               let st1 := add_unk st (List.map p_name unknown) in
               let st2 := match ni_umode ni with Fail => st1 | _ => add_text st1 [t] end in
@@ -188,7 +195,7 @@ Section WithEnv.
         match alookup t (n_cmds (cur st)) with
         | Some child => Ok (descend st child)
         | None =>
-            if ni_reqorder ni then Ok (set_ph (add_text st [t]) PTail)
+            if reqorder then Ok (set_ph (add_text st [t]) PTail)
             else Ok (add_text st [t])
         end.
 
